@@ -57,6 +57,9 @@ def plan(tier, seed):
             parts.append(P("assoc", {"ka": ka, "kb": kb, "kc": kc, "fields": "iln"}, ob, 3))
     parts.append(P("assoc", {"ka": 0, "kb": 0, "kc": 0, "fields": "l"}, ob + " (lists)", 2))
     parts.append(P("assoc", {"ka": 0, "kb": 0, "kc": 0, "fields": "il"}, ob + " (atomic+lists)", 2))
+    parts.append(Part("vt.harness.c14_inst", "nested", {}, 120, 60,
+                      "installed schemas: nested object of a complete instance (built from a versioned or a version-less plugin "
+                      "handle) merges recursively with a parsed partial; identity; round trip", pure_pydantic=False))
     return parts
 
 
